@@ -6,7 +6,7 @@ use std::time::Instant;
 
 use crate::mon::verdict::{Stats, Violation};
 use crate::sim::cluster::install_panic_hook;
-use crate::sim::gen::{run_exec, ExecResult, Profile};
+use crate::sim::gen::{run_exec, run_exec_focus, ExecResult, Profile};
 
 pub struct ClusterRun {
     pub profiles: Vec<Profile>,
@@ -16,6 +16,11 @@ pub struct ClusterRun {
     pub threads: usize,
     pub max_secs: f64,
     pub stop_on_violation: bool,
+    /// Stop early once this many executions have violated `focus` (the verdict is settled).
+    pub focus: Option<&'static str>,
+    pub stop_after: usize,
+    /// Signatures of listed known findings (they never count toward the early stop).
+    pub known_sigs: Vec<String>,
 }
 
 pub struct RunOutcome {
@@ -37,6 +42,7 @@ pub fn run_cluster(cfg: &ClusterRun) -> RunOutcome {
     install_panic_hook();
     let next = Arc::new(AtomicUsize::new(0));
     let stop = Arc::new(AtomicBool::new(false));
+    let focus_hits = Arc::new(AtomicUsize::new(0));
     let out = Arc::new(Mutex::new((
         Stats::default(),
         Vec::<ExecResult>::new(),
@@ -51,6 +57,9 @@ pub fn run_cluster(cfg: &ClusterRun) -> RunOutcome {
         let next = next.clone();
         let stop = stop.clone();
         let out = out.clone();
+        let focus_hits = focus_hits.clone();
+        let (focus, stop_after) = (cfg.focus, cfg.stop_after);
+        let known_sigs = cfg.known_sigs.clone();
         let profiles = cfg.profiles.clone();
         let (seed, execs, actions, max_secs, sov) =
             (cfg.seed, cfg.execs, cfg.actions, cfg.max_secs, cfg.stop_on_violation);
@@ -78,7 +87,7 @@ pub fn run_cluster(cfg: &ClusterRun) -> RunOutcome {
                         }
                         let p = profiles[idx % profiles.len()];
                         let s = exec_seed(seed, idx);
-                        let r = match std::panic::catch_unwind(|| run_exec(s, p, actions, 0)) {
+                        let r = match std::panic::catch_unwind(|| run_exec_focus(s, p, actions, 0, focus)) {
                             Ok(r) => r,
                             Err(_) => {
                                 let (msg, loc) = crate::sim::cluster::LAST_PANIC
@@ -101,9 +110,23 @@ pub fn run_cluster(cfg: &ClusterRun) -> RunOutcome {
                         let ExecResult { stats, .. } = &r;
                         local.merge(stats.clone());
                         if bad {
+                            if let Some(f) = focus {
+                                if r.violations.iter().any(|v| v.prop == f && !known_sigs.contains(&v.sig)) {
+                                    let n = focus_hits.fetch_add(1, Ordering::Relaxed) + 1;
+                                    if stop_after > 0 && n >= stop_after {
+                                        stop.store(true, Ordering::Relaxed);
+                                    }
+                                }
+                            }
                             // keep a few executions per distinct signature so that a frequent
                             // finding cannot crowd out a rare one
-                            let sig = r.violations[0].sig.clone();
+                            let sig = r
+                                .violations
+                                .iter()
+                                .find(|v| Some(v.prop) == focus)
+                                .unwrap_or(&r.violations[0])
+                                .sig
+                                .clone();
                             let c = sig_counts.entry(sig).or_insert(0usize);
                             *c += 1;
                             if *c <= 3 && fails.len() < 400 {
@@ -176,6 +199,9 @@ pub fn main(args: &[String]) -> i32 {
                 threads: arg(args, "--threads").and_then(|s| s.parse().ok()).unwrap_or(16),
                 max_secs: arg(args, "--max-secs").and_then(|s| s.parse().ok()).unwrap_or(3600.0),
                 stop_on_violation: args.iter().any(|a| a == "--stop"),
+                focus: None,
+                stop_after: 0,
+                known_sigs: Vec::new(),
             };
             let o = run_cluster(&cfg);
             println!(
@@ -223,7 +249,8 @@ pub fn main(args: &[String]) -> i32 {
             let p = Profile::parse(arg(args, "--profile").unwrap_or("mixed")).unwrap();
             let actions = arg(args, "--actions").and_then(|s| s.parse().ok()).unwrap_or(600);
             let tail = arg(args, "--tail").and_then(|s| s.parse().ok()).unwrap_or(120);
-            let r = run_exec(seed, p, actions, tail);
+            let focus = arg(args, "--focus").and_then(|f| crate::mon::verdict::ALL_PROPS.iter().find(|x| **x == f).cloned());
+            let r = run_exec_focus(seed, p, actions, tail, focus);
             println!("{}", r.desc);
             for l in &r.trace {
                 println!("{}", l);
@@ -357,7 +384,8 @@ pub fn main(args: &[String]) -> i32 {
             let actions = v["actions"].as_u64().unwrap_or(600) as usize;
             let sig = v["signature"].as_str().unwrap_or("").to_string();
             let prop = v["property"].as_str().unwrap_or("").to_string();
-            let r = run_exec(seed, prof, actions, 200);
+            let focus = crate::mon::verdict::ALL_PROPS.iter().find(|x| **x == prop.as_str()).cloned();
+            let r = run_exec_focus(seed, prof, actions, 200, focus);
             println!("{}", r.desc);
             for l in &r.trace {
                 println!("{}", l);
